@@ -293,3 +293,131 @@ def ir_externals(ctx, rule='ir-external-callees'):
         if n in tables.NON_REENTRANT or pretty in tables.NON_REENTRANT:
             ctx.fail(rule, 'reachable:' + n, n, 'non-reentrant %s is reachable from library code' % pretty)
     return len(ext)
+
+
+def noalias_destination_not_in_product(ctx, rule='noalias-destination-not-in-product', scope=None, min_instances=1):
+    """`X.noalias() = A * B` tells Eigen to write the product straight into X: X is resized / zeroed before the factors are
+    read, so X must not occur in a factor of a matrix product on the right-hand side (coefficient-wise uses are fine)."""
+    def is_mat(fn, node):
+        return 'Eigen::' in (fn.strip(node) or {}).get('t', '')
+    n = 0
+    ctl = [0, 0]
+    for fn in list(ctx.C.functions) + list(ctx.F.concrete()):
+        control = fn.qname.startswith('SpectraControl::AliasedNoalias')
+        if not control and (not fn.cfg or not fn.qname.startswith('Spectra::') or (scope is not None and not scope(fn))):
+            continue
+        for x in fn.walk():
+            if not (x['k'] == 'CXXOperatorCallExpr' and x.get('op') in ('=', '+=', '-=')):
+                continue
+            a = fn.call_args(x)
+            lhs = fn.strip(a[0])
+            if lhs is None or not (lhs['k'] == 'CXXMemberCallExpr' and lhs.get('callee') == 'noalias'):
+                continue
+            dest = fn.root_of(fn.call_object(lhs))
+            hit = None
+            if dest is not None:
+                for y in fn.walk(a[1]['id']):
+                    if y['k'] == 'CXXOperatorCallExpr' and y.get('op') == '*':
+                        ops = fn.call_args(y)
+                        if len(ops) == 2 and is_mat(fn, ops[0]) and is_mat(fn, ops[1]):
+                            for o in ops:
+                                for z in fn.walk(o['id']):
+                                    if z['k'] in ('MemberExpr', 'DeclRefExpr') and fn.root_of(z) == dest:
+                                        hit = y
+            if control:
+                ctl[0 if hit is not None else 1] += 1
+                continue
+            n += 1
+            inst = '%s::%s' % ((fn.cls or '').replace('Spectra::', ''), fn.name)
+            ctx.check(hit is None, rule, inst, fn.qname,
+                      '`%s`: destination does not occur in a product factor' % fn.s(x['id'])[:60] if hit is None else
+                      '`%s`: the destination is also a factor of the product `%s`; with noalias() Eigen overwrites it before reading it' %
+                      (fn.s(x['id'])[:80], fn.s(hit['id'])[:60]))
+    if ctl != [1, 1]:
+        raise AnalysisBroken('noalias rule: positive control not matched exactly (aliased %d, clean %d)' % tuple(ctl))
+    if n < min_instances:
+        raise AnalysisBroken('only %d noalias assignments analysed (expected >= %d)' % (n, min_instances))
+    return n
+
+
+def unsequenced_side_effects(ctx, rule='no-unsequenced-modification', scope=None, min_instances=1):
+    """Two operands of one call / constructor / arithmetic operator are evaluated in an unspecified order (C++11/14; for
+    function arguments also in C++17).  If one operand may modify an object (passes it to a non-const reference parameter,
+    assigns or increments it) that another operand modifies or reads, the value computed depends on the compiler."""
+    CALLS = ('CallExpr', 'CXXMemberCallExpr', 'CXXConstructExpr', 'CXXTemporaryObjectExpr', 'CXXOperatorCallExpr')
+    n = 0
+
+    def effects(fn, root):
+        mod, use = set(), set()
+        for y in fn.walk(root):
+            if y['k'] in ('DeclRefExpr', 'MemberExpr'):
+                r = fn.root_of(y)
+                if r is not None and r[0] in ('local', 'field'):
+                    use.add(r)
+            if y['k'] in CALLS:
+                pm = y.get('pmut')
+                args = fn.call_args(y)
+                off = 1 if (y['k'] == 'CXXOperatorCallExpr' and pm is not None and len(pm) == len(args) - 1) else 0
+                for j, a in enumerate(args):
+                    jj = j - off
+                    if jj < 0:
+                        continue
+                    if pm is None or jj >= len(pm) or pm[jj] != 'C':
+                        st = fn.strip(a)
+                        if st is not None and st['k'] in ('DeclRefExpr', 'MemberExpr') and st.get('lv', True):
+                            r = fn.root_of(st)
+                            if r is not None and r[0] in ('local', 'field'):
+                                mod.add(r)
+            if y['k'] == 'UnaryOperator' and y.get('op') in ('++', '--'):
+                r = fn.root_of(fn.nodes[y['c'][0]])
+                if r is not None:
+                    mod.add(r)
+            if y['k'] in ('BinaryOperator', 'CompoundAssignOperator') and y.get('op') in ('=', '+=', '-=', '*=', '/='):
+                r = fn.root_of(fn.nodes[y['c'][0]])
+                if r is not None:
+                    mod.add(r)
+        return mod, use
+    ctl = 0
+    for fn in list(ctx.C.functions) + list(ctx.F.concrete()):
+        control = fn.qname.startswith('SpectraControl::unsequenced_draws')
+        if not control and (not fn.cfg or not fn.qname.startswith('Spectra::') or (scope is not None and not scope(fn))):
+            continue
+        nsite = 0
+        problems = []
+        for x in fn.walk():
+            ops = None
+            if x['k'] in CALLS:
+                ops = fn.call_args(x)
+                if x['k'] == 'CXXMemberCallExpr' and fn.call_object(x) is not None:
+                    ops = [fn.call_object(x)] + list(ops)
+            elif x['k'] == 'BinaryOperator' and x.get('op') in ('+', '-', '*', '/', '%', '<', '>', '<=', '>=', '==', '!=', '&', '|', '^', '<<', '>>'):
+                ops = [fn.nodes[c] for c in x['c']]
+            if not ops or len(ops) < 2:
+                continue
+            eff = [effects(fn, o['id']) for o in ops]
+            if not any(m for m, _ in eff):
+                continue
+            nsite += 1
+            for i in range(len(ops)):
+                for j in range(len(ops)):
+                    if i == j:
+                        continue
+                    clash = eff[i][0] & (eff[j][0] | eff[j][1])
+                    # a scalar handed by value is read before the call; only objects that operand i may MODIFY matter
+                    if clash:
+                        names = sorted(fn.locals[c[1]]['name'] if c[0] == 'local' else c[1] for c in clash)
+                        problems.append('`%s`: operand %d may modify %s, which operand %d %s; their evaluation order is unspecified' %
+                                        (fn.s(x['id'])[:80], i + 1, ', '.join(names), j + 1, 'also modifies' if eff[j][0] & clash else 'reads'))
+        if control:
+            ctl += 1 if problems else 0
+            continue
+        n += 1
+        inst = '%s::%s' % ((fn.cls or '').replace('Spectra::', ''), fn.name) if fn.cls else fn.name
+        ctx.check(not problems, rule, inst, fn.qname,
+                  '%d expressions with a modifying operand: no other operand of the same expression touches the modified object' % nsite
+                  if not problems else '; '.join(sorted(set(problems))[:2]))
+    if ctl < 1:
+        raise AnalysisBroken('unsequenced-modification rule: positive control not matched')
+    if n < min_instances:
+        raise AnalysisBroken('only %d functions analysed (expected >= %d)' % (n, min_instances))
+    return n
